@@ -20,7 +20,7 @@ META = dict(
          "every row time+12h, last+1d} (closed, half-open, empty, inverted, rows exactly on starting and on ending), "
          "streams {v} and {v,w}, test sets {probe}, {spike, rate_of_change}, {probe, depth-banded climatology, location}; "
          "two-context programs over every ordered pair of windows from a coarse grid; three-context programs A,B,A (the "
-         "same window in two non-adjacent places); tables with a missing (NaT) time and with repeated timestamps; a test configured on the depth column itself; one Config object run "
+         "same window in two non-adjacent places); tables with a missing (NaT) time and with repeated timestamps; a test configured on the depth column itself; a few programs on a 40-row (thorough 150-row) table in increasing and shuffled order; one Config object run "
          "first on data lacking a configured stream and then on complete data; window bounds as ISO strings and "
          "datetime objects; front ends: PandasStream (RangeIndex / shifted ints / DatetimeIndex / repeated labels), NumpyStream (ndarray / "
          "dict), XarrayStream (time as dimension coordinate / as data variable / from a NetCDF-3 file path), NetcdfStream (in-memory Dataset / file path), QcConfig.run; Pandas/Xarray/Netcdf streams also with custom axis column names. Oracle per "
@@ -288,8 +288,21 @@ def axis_stream_programs(n):
         yield "axis", dict(z=True, ll=False), [dict(start=s, end=e, streams={"v": mv, "z": mz})], "str"
 
 
+def big_programs(n):
+    """a few programs on a table of n rows (size-dependent code paths)"""
+    t = lambda i: S.T0 + i * S.DAY
+    wins = [(None, None), (t(5), t(n - 10)), (t(n // 4), None), (None, t(n // 2) + S.DAY // 2), (t(n), None)]
+    for ts_name in ("probe_z", "neigh", "aux"):
+        mods, need = TESTSETS[ts_name]
+        for s, e in wins:
+            yield ts_name, need, [dict(start=s, end=e, streams={"v": mods, "w": mods})], "str"
+        yield ts_name, need, [dict(start=None, end=t(n // 2), streams={"v": mods}), dict(start=t(n // 2), end=None, streams={"v": mods, "w": mods})], "datetime"
+
+
 def tasks(tier):
     ts = [("reuse", 4, fe) for fe in ("pandas:range", "numpy:dict", "xarray:coord", "netcdf")]
+    for fe in S.FRONTENDS:
+        ts.append(("big", 40 if tier == "quick" else 150, fe))
     for fe in ("pandas:names", "xarray:names", "netcdf:names"):
         ts.append(("one", 4, fe))
     for fe in ("xarray:file", "netcdf:file"):
@@ -386,7 +399,8 @@ def run_task(task, acc):
         return True
 
     def gen():
-        progs = {"one": one_context_programs, "two": two_context_programs, "three": three_context_programs, "axis": axis_stream_programs}[kind](n)
+        progs = {"one": one_context_programs, "two": two_context_programs, "three": three_context_programs, "axis": axis_stream_programs,
+                 "big": big_programs}[kind](n)
         for ts_name, need, ctxs, style in progs:
             if not usable(ctxs):
                 continue
@@ -396,6 +410,9 @@ def run_task(task, acc):
                 if len(ctxs) > 1:
                     continue
             yield dict(n=n, z=need["z"], ll=need["ll"], fe=fe, contexts=ctxs, style=style, testset=ts_name)
+            if kind == "big":
+                yield dict(n=n, z=need["z"], ll=need["ll"], fe=fe, contexts=ctxs, style=style, testset=ts_name, shuffled=True)
+                continue
             if n >= 2 and ts_name == "probe" and fe != "xarray:coord":
                 # a row whose time is missing (NaT) satisfies no window bound
                 yield dict(n=n, z=need["z"], ll=need["ll"], fe=fe, contexts=ctxs, style=style, testset=ts_name, nat=True)
